@@ -6,12 +6,15 @@ include!(concat!(env!("OUT_DIR"), "/mods.rs"));
 mod fw;
 mod subject;
 mod p01;
+mod p09;
+mod refval;
 
 use fw::*;
 
 fn make(id: &str, tier: Tier) -> Option<Box<dyn Property>> {
     Some(match id {
         "C01" => Box::new(p01::P01::new(tier)),
+        "C09" => Box::new(p09::P09::new(tier)),
         _ => return None,
     })
 }
